@@ -297,13 +297,19 @@ def make_consumer_case(rng, scenario, calls=None, route=None, invalid=None):
             force = {"set_fetch_max_bytes_per_partition": [[40], [64], [1024]]}
         setters = client_setters(rng, invalid=False, n=0.4, force=force)
         ops = [T("client_new", [[H1, H2]])] + setters + [T("load_metadata_all")]
-    calls = calls if calls is not None else consumer_calls(rng, scenario, invalid)
     build_at = len(ops)
-    ops.append(T("consumer_build", [T("from_client") if route == "client" else T("from_hosts", [[H1, H2]]), calls]))
     if route == "client":
         client_cfg = dict(DEFAULTS)
         for s in ops[1:build_at - 1]:
             ref_setter(client_cfg, s)
+    if calls is None:
+        calls = consumer_calls(rng, scenario, invalid)
+        _, _, err = ref_consumer(client_cfg, calls)
+        if err is not None and err.name == "unset_offset_storage" and rng.random() < 0.8:
+            # a group without offset storage is rejected at creation: keep a fifth of these, give the others a storage
+            last = max([i for i, c in enumerate(calls) if c.name == "with_offset_storage"] + [-1])
+            calls.insert(rng.randint(last + 1, len(calls)), T("with_offset_storage", [rng.choice([0, 1])]))
+    ops.append(T("consumer_build", [T("from_client") if route == "client" else T("from_hosts", [[H1, H2]]), calls]))
     ccfg, cc, err = ref_consumer(client_cfg, calls)
     if err is None and scenario != "attempts_build":
         ops += consumer_tail(scenario, ccfg, cc)
@@ -685,6 +691,9 @@ def oracle_built(case, recs, cl):
                 fails.append("C16: %s: fetch request carries max_wait/min_bytes %s, configured %s" %
                              (tag, (body["max_wait"], body["min_bytes"]), (cfg["max_wait"], cfg["min_bytes"])))
             if m["scenario"] == "retry_limit":
+                if first_poll and p["offset"] != 0:
+                    fails.append("C16: %s: first fetch at offset %d, expected 0 (fallback earliest)" % (tag, p["offset"]))
+                first_poll = False
                 if p["max_bytes"] != cur_max:
                     fails.append("C16: %s: poll asks for max_bytes %d, expected %d (configured %d, retry limit %d)" %
                                  (tag, p["max_bytes"], cur_max, cfg["max_bytes"], cc["retry_limit"]))
@@ -790,6 +799,19 @@ def stats(case, recs):
         for o in ops:
             if o.name.startswith("set_"):
                 s["opt:" + o.name] = s.get("opt:" + o.name, 0) + 1
+    for j, r in enumerate(recs):
+        o = r["op"]
+        res = r["impl"]
+        if o.name == "poll" or o.name == "fetch_messages":
+            if isinstance(case["ops"][j], dict):
+                s["falsified_crc:" + ("delivered" if delivered(res) else "rejected")] = 1
+            elif m["scenario"] == "retry_limit":
+                k = "too_large" if res == T("err", [T("kafka", [10])]) else "data" if res.name == "ok" and (b"B" * 100).hex() in dumps(res) else "empty_grow"
+                s["oversized_poll:" + k] = s.get("oversized_poll:" + k, 0) + 1
+        if o.name == "get_config" and res.name == "ok" and j == len(recs) - 1 or (o.name == "get_config" and m["family"] != "client"):
+            got = {e.name: e.args[0] for e in res.args[0]} if res.name == "ok" else {}
+            if got.get("connection_idle_timeout") == [0, 0]:
+                s["idle_timeout_zero"] = 1
     for o in ops:
         if o.name in ("set_fetch_max_wait_time",):
             if dur_ms((o.args[0], o.args[1])) is None:
